@@ -45,6 +45,29 @@ def ordered(g, a, b):
     return not g.path_exists(nb, na) or na.id == nb.id
 
 
+def cleanup_isolation_rule(chk, rid, pv):
+    """provisioner.cleanup: a path that cannot be deleted (OSError) does not stop the deletion of the remaining data paths and of the installation — either the removal call is
+    protected for ONE path at a time (try/except OSError inside the helper / inside the loop body), or nothing in the function catches OSError at all (the failure is then reported,
+    not swallowed). A try that spans the loop or several delete calls swallows the first failure together with all later deletions. Shared with C12 (clean up unless preserve)."""
+    cu = pv.func("cleanup")
+    cpar = params_of(cu)
+    rms = [x for x in ast.walk(cu) if isinstance(x, ast.Call) and dotted(x.func) in ("shutil.rmtree", "os.remove", "os.rmdir", "os.unlink")]
+    dels = [x for x in ast.walk(cu) if isinstance(x, ast.Call) and last_attr(x.func) in ("delete_path", "rmtree") and x not in rms]
+    swallowing = [t for t in ast.walk(cu) if isinstance(t, ast.Try) and any((h.type is None or any(nm in (dotted(e_) or "") for e_ in (h.type.elts if isinstance(h.type, ast.Tuple) else [h.type])
+                  for nm in ("OSError", "Exception", "BaseException", "IOError"))) and not any(isinstance(x, ast.Raise) for x in ast.walk(h)) for h in t.handlers)]
+    bad = []
+    for t in swallowing:
+        inside = [x for st in t.body for x in ast.walk(st)]
+        n_sites = sum(1 for x in inside if x in dels or x in rms)
+        spans_loop = any(isinstance(x, (ast.For, ast.While)) and any(y in dels or y in rms for y in ast.walk(x)) for x in inside)
+        if spans_loop or n_sites > 1:
+            bad.append(t)
+    chk.ob(rid, "cleanup: a failing deletion is contained per path (no handler swallows it together with the remaining deletions)", bool(rms or dels) and not bad, bad[0] if bad else cu,
+           "" if not bad else f"the try at line {bad[0].lineno} spans {'the loop over the data paths' if any(isinstance(x, (ast.For, ast.While)) for st in bad[0].body for x in ast.walk(st)) else 'several deletions'}: "
+           "the first path that cannot be removed leaves every later data path and the installation on disk while cleanup returns normally",
+           key="esrally/mechanic/provisioner.py:cleanup:failure-contained-per-path")
+
+
 def run(chk):
     repo = chk.repo
     tm, pv = repo.module(_T), repo.module(_P)
@@ -358,6 +381,7 @@ def run(chk):
     dp = [n for n in cu.body if isinstance(n, ast.FunctionDef) and n.name == "delete_path"]
     ok = bool(dp) and any(isinstance(x, ast.Call) and dotted(x.func) == "shutil.rmtree" and x.args and params_of(dp[0]) and u(x.args[0]) == params_of(dp[0])[0] for x in ast.walk(dp[0]))
     chk.ob("O13.4", "delete_path removes the given tree", ok, dp[0] if dp else cu, "")
+    cleanup_isolation_rule(chk, "O13.4", pv)
 
 
 from sa.selftest import V  # noqa: E402
